@@ -588,7 +588,9 @@ def exec_programs(trace: Dict[str, Any]) -> Dict[str, Any]:
         rec["sub_calls"] = len(peers.HISTORY)
         now = {k: id(v) for k, v in ev.base_functions.items()}
         if now != base_snapshot:
-            rec["base_changed"] = sorted({k for k, _ in set(now.items()) ^ set(base_snapshot.items())})[:8]
+            leaked = kit.host_leaks(ev.base_functions)
+            if leaked:
+                rec["base_changed"] = leaked[:8]
         records.append(rec)
     return {"records": records}
 
@@ -670,9 +672,9 @@ def execute(trace: Dict[str, Any]) -> Dict[str, Any]:
                                    sig={"oracle": "S1-count", "runner": prog["runner"],
                                         "detail": "required-call-not-made"}))
         if rec.get("base_changed"):
-            violations.append(dict(base, oracle="S2-base-functions-changed",
+            violations.append(dict(base, oracle="S2-host-function-in-base-functions",
                                    detail=rec["base_changed"],
-                                   sig={"oracle": "S2-base-functions-changed"}))
+                                   sig={"oracle": "S2-host-function-in-base-functions"}))
         if rec["sub_calls"]:
             raise kit.HarnessError("the substituted program reached a host stub")
         # stats
